@@ -38,9 +38,13 @@ func (g *vfGen) raceStress() {
 		fmt.Sscan(v, &secs)
 	}
 	procs := []int{2, 4, 16}[g.rng.Intn(3)]
+	if v := os.Getenv("VERIF_RACE_PROCS"); v != "" {
+		fmt.Sscan(v, &procs)
+	}
 	runtime.GOMAXPROCS(procs)
-	limits := []uint32{0, 16, 3072}
-	inputs := [][]byte{[]byte("PK\x03\x04"), []byte("{\"a\":[1,2,3]}"), []byte("a,b\n1,2\n3,4\n"), []byte("<html><meta charset=x>"),
+	limits := []uint32{0, 16, 23, 3072}
+	inputs := [][]byte{[]byte(`{"a":[1,2,3],"b":"some text that goes on","c":{"d":null}}`), []byte("a,b,c,d\n1,2,3,4\n5,6,7,8\n9,10,11,12\n"),
+		[]byte("  [1, 2, 3, 4, 5, 6, 7, 8, 9"), []byte("a,b,c,d\n1,2,3,4\n5,6,7,8\n9,"), []byte("PK\x03\x04"), []byte("{\"a\":[1,2,3]}"), []byte("a,b\n1,2\n3,4\n"), []byte("<html><meta charset=x>"),
 		[]byte("\x89PNG\r\n\x1a\n"), g.textBytes(200), {}, []byte("VERIF-EXT-0 hello"), []byte("VERIF-EXT-3 hello")}
 	// sequential oracle: results at every limit, before any extension
 	oracle := make([]map[string]bool, len(inputs))
@@ -64,6 +68,7 @@ func (g *vfGen) raceStress() {
 	stop := make(chan struct{})
 	var wg sync.WaitGroup
 	var extCount int64
+	var registered sync.Map
 	seedBase := g.rng.Int63()
 	worker := func(id int, role string) {
 		defer wg.Done()
@@ -134,14 +139,16 @@ func (g *vfGen) raceStress() {
 				name := fmt.Sprintf("application/x-verif-race-%d", k)
 				if rng.Intn(2) == 0 {
 					Extend(det, name, ".vr", al...)
+					registered.Store(name, true)
 				} else if p := Lookup([]string{"text/plain", "application/zip", "application/json"}[rng.Intn(3)]); p != nil {
 					p.Extend(det, name, ".vr", al...)
+					registered.Store(name, true)
 				}
 				time.Sleep(time.Microsecond * time.Duration(rng.Intn(200)))
 			}
 		}
 	}
-	roles := []string{"detect", "detect", "detect", "lookup", "lookup", "lookup", "limit", "extend", "extend"}
+	roles := []string{"detect", "detect", "detect", "lookup", "lookup", "lookup", "limit", "limit", "extend", "extend", "extend"}
 	for i, r := range roles {
 		wg.Add(1)
 		go worker(i, r)
@@ -149,6 +156,13 @@ func (g *vfGen) raceStress() {
 	time.Sleep(time.Duration(secs) * time.Second)
 	close(stop)
 	wg.Wait()
+	// every extension that was registered must still be there
+	registered.Range(func(k, _ any) bool {
+		if Lookup(k.(string)) == nil {
+			report("extension %s registered concurrently is gone", k.(string))
+		}
+		return true
+	})
 	msg := "-"
 	if v := firstMsg.Load(); v != nil {
 		msg = strings.ReplaceAll(v.(string), " ", "_")
